@@ -1,6 +1,7 @@
 package main
 
 import (
+	"fmt"
 	"go/token"
 	"strings"
 
@@ -233,6 +234,45 @@ func runC12(r *Run) {
 				bad = r.pos(e.From.Instrs[len(e.From.Instrs)-1])
 			}
 		}
+		// the other way out of the loop: it ends successfully only when the announced number of messages was decoded —
+		// with the exit edge of `i < size` removed, nothing after the loop is reachable from a decoded message
+		var size ssa.Value
+		for _, c := range callsMatching(f, false, func(n string) bool { return strings.HasSuffix(n, "msgp.ReadArrayHeaderBytes") }) {
+			for _, ref := range *c.Value().Referrers() {
+				if ex, ok := ref.(*ssa.Extract); ok && ex.Index == 0 {
+					size = ex
+				}
+			}
+		}
+		r.need(size != nil, "the message count comes from msgp.ReadArrayHeaderBytes")
+		exit := map[edge]bool{}
+		for _, br := range branchesIn(f) {
+			if br.Info.Other == nil {
+				continue
+			}
+			switch {
+			case br.Info.Op == token.LSS && stripValue(br.Info.Other) == size, br.Info.Op == token.GTR && stripValue(br.Info.Root) == size:
+				exit[edge{br.If.Block(), br.slotWhenRel(false)}] = true
+			case br.Info.Op == token.GEQ && stripValue(br.Info.Other) == size, br.Info.Op == token.LEQ && stripValue(br.Info.Root) == size:
+				exit[edge{br.If.Block(), br.slotWhenRel(true)}] = true
+			}
+		}
+		r.need(len(exit) >= 1, "the decode loop runs while i < size")
+		isAfterLoop := func(in ssa.Instruction) bool {
+			if isCallTo(in, func(n string) bool { return strings.HasSuffix(n, "Ctx).Cookie") }) {
+				return true
+			}
+			_, ok := in.(*ssa.Return)
+			return ok && in.Parent() == f
+		}
+		short := ""
+		for _, in := range instrsWhere(f, isDirtying) {
+			if path, hit := reach(pointAfter(in), isAfterLoop, exit, isEmptying); hit != nil {
+				short = pathString(r.P, path)
+			}
+		}
+		r.check(short == "", "parseAndClearFlashMessages:all-announced-messages-or-none", r.fpos(f), "after a message was decoded the function is left only through `i < size` turning false or with the messages emptied",
+			"the decode loop can end before the announced number of messages was read and keep what it has: a cookie cut at a message boundary (or announcing more than it holds) delivers its first messages and is expired as if it were complete: "+short)
 		r.check(bad == "", "parseAndClearFlashMessages:error⇒empty", r.fpos(f), "whenever a decode error edge is taken after the messages were touched, they are emptied before return",
 			"a decode error returns with the partially decoded messages still in place ("+bad+"): a truncated or hostile cookie yields messages")
 	})
@@ -319,6 +359,18 @@ func runC12(r *Run) {
 					}
 				}
 			}
+			// what the pre-filter looks for occurs in every header block that carries the cookie: a piece of `name=`,
+			// nothing around it (another cookie may precede it on the line, the field name may be spelled cookie:)
+			name := ""
+			if cm, ok := r.P.Pkg("").Members["FlashCookieName"].(*ssa.NamedConst); ok {
+				name, _ = constString(cm.Value)
+			}
+			r.need(name != "", "FlashCookieName is a string constant")
+			for i, c := range callsMatching(f, false, nameIs("bytes.Contains")) {
+				needle, okN := resolveLiteral(r, c.Common.Args[1], 0)
+				r.check(okN && needle != "" && strings.Contains(name+"=", needle), fmt.Sprintf("%s:flash-prefilter#%d:not-narrower-than-the-parser", en, i+1), r.pos(c.Instr), fmt.Sprintf("the pre-filter searches %q, a piece of %q", needle, name+"="),
+					fmt.Sprintf("the pre-filter searches for %q (resolved=%v), which is not a piece of %q: a request whose flash cookie follows another cookie on the line, or whose header field is spelled `cookie:`, is not recognised — its messages are never delivered and the cookie is never expired", needle, okN, name+"="))
+			}
 			_, hit := reach(entryOf(f), func(in ssa.Instruction) bool { return in == calls[0].Instr }, cut, nil)
 			r.check(len(cut) > 0 && hit == nil, en+":flash-prefilter", r.pos(calls[0].Instr), "flash parsing only runs when the raw headers contain the cookie name", "flash parsing runs for every request")
 			// and the other way round: once the headers mention the cookie nothing else decides whether it is read —
@@ -365,4 +417,68 @@ func runC12(r *Run) {
 		ok := len(instrsWhere(rel, isEmptying)) == 1
 		r.check(ok, "release:empties-flashMessages", r.fpos(rel), "release truncates flashMessages: no cookie ⇒ no messages", "flashMessages survive the release of the context: the next request without a cookie sees the previous request's messages")
 	})
+}
+
+// resolveLiteral: the constant text behind v — a string constant, []byte("…"), a concatenation of such, or a
+// package-level variable whose initialiser is one (the store in the package's init function).
+func resolveLiteral(r *Run, v ssa.Value, depth int) (string, bool) {
+	if depth > 4 {
+		return "", false
+	}
+	v = stripValue(v)
+	if s, ok := constString(asConst(v)); ok {
+		return s, true
+	}
+	switch x := v.(type) {
+	case *ssa.Slice:
+		return resolveLiteral(r, x.X, depth+1)
+	case *ssa.BinOp:
+		if x.Op == token.ADD {
+			a, ok1 := resolveLiteral(r, x.X, depth+1)
+			b, ok2 := resolveLiteral(r, x.Y, depth+1)
+			return a + b, ok1 && ok2
+		}
+	case *ssa.UnOp:
+		if x.Op != token.MUL {
+			return "", false
+		}
+		g, ok := x.X.(*ssa.Global)
+		if !ok || g.Pkg == nil {
+			return "", false
+		}
+		init := g.Pkg.Func("init")
+		if init == nil {
+			return "", false
+		}
+		found, val := 0, ""
+		okAll := true
+		for _, b := range init.Blocks {
+			for _, in := range b.Instrs {
+				if st, ok := in.(*ssa.Store); ok && st.Addr == ssa.Value(g) {
+					found++
+					s, ok := resolveLiteral(r, st.Val, depth+1)
+					val, okAll = s, okAll && ok
+				}
+			}
+		}
+		// a variable written anywhere else is not a constant
+		written := false
+		for _, m := range g.Pkg.Members {
+			fn, ok := m.(*ssa.Function)
+			if !ok || fn == init {
+				continue
+			}
+			for _, f := range append([]*ssa.Function{fn}, anonFuncsDeep(fn)...) {
+				for _, b := range f.Blocks {
+					for _, in := range b.Instrs {
+						if st, ok := in.(*ssa.Store); ok && st.Addr == ssa.Value(g) {
+							written = true
+						}
+					}
+				}
+			}
+		}
+		return val, found == 1 && okAll && !written
+	}
+	return "", false
 }
